@@ -238,6 +238,9 @@ func (br *blockReader) readBlock() (int, error) {
 	br.block = make([]byte, br.blockSize+checksumSize)
 	n, err := io.ReadFull(br.r, br.block)
 	if err != nil && err != io.ErrUnexpectedEOF {
+		// nothing was read, do not leave the zero filled buffer behind as data to be
+		// returned by the next Read
+		br.block = br.block[:0]
 		return n, err
 	}
 	br.block = br.block[:n]
